@@ -96,6 +96,35 @@ pub open spec fn example_verdict(r: Rule, y: Yaml) -> Option<bool> {
     }
 }
 
+// how many of the first n examples fail: a true positive fails unless it is a mapping the rule matches, a true negative
+// fails unless it is a mapping the rule does not match
+pub open spec fn tp_failures(r: Rule, n: int) -> nat
+    decreases n,
+{
+    if n <= 0 { 0 } else { tp_failures(r, n - 1) + (if example_verdict(r, r.true_positives@[n - 1]) == Some(true) { 0nat } else { 1nat }) }
+}
+pub open spec fn tn_failures(r: Rule, n: int) -> nat
+    decreases n,
+{
+    if n <= 0 { 0 } else { tn_failures(r, n - 1) + (if example_verdict(r, r.true_negatives@[n - 1]) == Some(false) { 0nat } else { 1nat }) }
+}
+pub open spec fn failures(r: Rule) -> nat { tp_failures(r, r.true_positives@.len() as int) + tn_failures(r, r.true_negatives@.len() as int) }
+
+pub proof fn lemma_tp_failures_zero(r: Rule, n: int)
+    requires 0 <= n <= r.true_positives@.len(),
+    ensures (tp_failures(r, n) == 0) <==> (forall|i: int| 0 <= i < n ==> example_verdict(r, #[trigger] r.true_positives@[i]) == Some(true)),
+    decreases n,
+{
+    if n > 0 { lemma_tp_failures_zero(r, n - 1); }
+}
+pub proof fn lemma_tn_failures_zero(r: Rule, n: int)
+    requires 0 <= n <= r.true_negatives@.len(),
+    ensures (tn_failures(r, n) == 0) <==> (forall|i: int| 0 <= i < n ==> example_verdict(r, #[trigger] r.true_negatives@[i]) == Some(false)),
+    decreases n,
+{
+    if n > 0 { lemma_tn_failures_zero(r, n - 1); }
+}
+
 // ---- slow_aho: the 64-bit bitmap counts each member once (C08)
 pub open spec fn bit(m: u64, q: u64) -> bool { (m >> q) & 1 == 1 }
 
